@@ -330,7 +330,7 @@ impl<T> ClientRuntimeState<T> where T : Read + Write + Send + Sync {
     }
 
     pub(crate) fn process_pending_reconnect(&mut self, client: &mut MqttClientImpl, wait: Duration) -> GneissResult<ClientImplState> {
-        let timeout_timepoint = Instant::now() + wait;
+        let timeout_timepoint = add_duration_saturating(&Instant::now(), wait);
 
         loop {
             trace!("threaded - process_pending_reconnect loop");
